@@ -203,6 +203,91 @@ def r19_4(ctx, rep):
         rep.ob(R, site, key, sig == SIG, "argument order %s differs from %s: values are fed to the wrong inputs" % (sig, SIG))
 
 
+@SPEC.rule(
+    "R19.5",
+    "the function that save_model stores (pickled or code-generated) and load_model evaluates is "
+    "Model.variable_metadata_function: its affine rebuild (A*p + b, evaluated at p = 0) must only be taken after the "
+    "zero-Hessian test on every path — otherwise the cached model reports NaN where the fresh compile reports the "
+    "attribute's value (same rule as R13.4, evaluated here because the cache is its only consumer)",
+)
+def r19_5(ctx, rep):
+    from .c13 import affine_rebuild
+
+    affine_rebuild(ctx, rep, "R19.5")
+
+
+def _names(e):
+    return {n.id for n in ast.walk(e) if isinstance(n, ast.Name)}
+
+
+@SPEC.rule(
+    "R19.6",
+    "row-domain agreement of the metadata matrices: variable_metadata_function emits one row per *scalar element* "
+    "(every attribute value is repmat-ed to the variable's symbol size before veccat), so load_model must address the "
+    "rows of metadata[key] / independent_metadata[key] through an element offset advanced by the symbol's element count, "
+    "never through the position of the variable in its list (the two only coincide when every variable is scalar)",
+)
+def r19_6(ctx, rep):
+    R = "R19.6"
+    vm = ctx.func(MODEL, "Model.variable_metadata_function", R)
+    per_element = any(isinstance(c, ast.Call) and call_name(c).endswith("repmat") and any(
+        isinstance(a, ast.Starred) and norm(a.value).endswith(".symbol.size()") for a in c.args) for c in calls(vm))
+    rep.note("R19.6 producer: rows per variable = %s" % ("element count (repmat to symbol.size())" if per_element else "1"))
+    ld = ctx.func(API, "load_model", R)
+    # names bound to dict(zip(<categories>, <... variable_metadata_function(...) ...>))
+    tables = set()
+    for st in walk_local(ld):
+        if isinstance(st, ast.Assign) and isinstance(st.targets[0], ast.Name) and isinstance(st.value, ast.Call) and call_name(st.value) == "dict" \
+                and any(isinstance(c, ast.Call) and call_name(c).endswith("variable_metadata_function") for c in ast.walk(st.value)):
+            tables.add(st.targets[0].id)
+    if len(tables) < 2:
+        raise MechanismMissing(R, "load_model no longer builds the two metadata tables from variable_metadata_function")
+    # counters of loops that enumerate the variables of one category
+    n = 0
+    for sub in walk_local(ld):
+        if not (isinstance(sub, ast.Subscript) and isinstance(sub.value, ast.Subscript) and (isinstance(sub.value.value, ast.Name) and sub.value.value.id in tables)
+                and isinstance(sub.slice, ast.Tuple) and len(sub.slice.elts) == 2):
+            continue
+        n += 1
+        row = sub.slice.elts[0]
+        # enclosing loops
+        counters, accum = set(), set()
+        p_ = getattr(sub, "_parent", None)
+        loops = []
+        while p_ is not None and p_ is not ld:
+            if isinstance(p_, ast.For):
+                loops.append(p_)
+            p_ = getattr(p_, "_parent", None)
+        for lp in loops:
+            if isinstance(lp.iter, ast.Call) and call_name(lp.iter) == "enumerate" and isinstance(lp.target, ast.Tuple) and isinstance(lp.target.elts[0], ast.Name):
+                counters.add(lp.target.elts[0].id)
+        # local names (transitively) computed from a symbol's element count inside the enclosing loops
+        sized = set()
+        changed = True
+        while changed:
+            changed = False
+            for lp in loops:
+                for st in ast.walk(lp):
+                    if isinstance(st, (ast.Assign, ast.AugAssign)):
+                        tg = st.targets[0] if isinstance(st, ast.Assign) else st.target
+                        if isinstance(tg, ast.Name) and tg.id not in sized:
+                            txt = norm(st.value)
+                            if any(k in txt for k in (".numel()", ".size1()", ".size()", ".shape")) or (_names(st.value) & sized):
+                                sized.add(tg.id)
+                                changed = True
+        used = _names(row)
+        if per_element:
+            ok = bool(used & sized) and not (used & counters)
+            why = "the row index `%s` is the variable's position in its list; after an unexpanded vector variable the rows of the " \
+                  "metadata matrix are shifted, so the cached model reports another variable's attribute" % norm(row)
+        else:
+            ok = bool(used & counters) or bool(used & sized)
+            why = "row index `%s` is not derived from the per-variable loop" % norm(row)
+        rep.ob(R, API + ":load_model", "row index of %s[...] #%d" % (sub.value.value.id, n), ok, why)
+    if n < 2:
+        raise MechanismMissing(R, "load_model no longer reads metadata[key][row, column]")
+
+
 # -- seeded variants ---------------------------------------------------------
 from ._mut import delete_stmt_where, replace_in_func  # noqa: E402
 
